@@ -302,13 +302,18 @@ func sxNodes(x SX) ([]*xnode, error) {
 }
 
 type c19Model struct {
-	Hang                           bool
-	Tree, TreeFixed                *xnode
+	Hang                            bool
+	Tree, TreeFixed                 *xnode
 	Flat, SpecAsIs, Spec, FlatFixed []*xnode
-	Guard                          bool
+	Guard                           bool
 }
 
 const c19Fuel = 3000
+
+// c19UseFixed selects the model the implementation is compared with: the code
+// as it is (default) or the `_fixed` model (after the proposed fixes have been
+// applied to the tree: set C19_MODEL=fixed, or flip this default).
+func c19UseFixed() bool { return os.Getenv("C19_MODEL") == "fixed" }
 
 func c19AskModel(model *Model, cmds []SX) (*c19Model, error) {
 	ans, err := model.Ask(Lst(Int(c19Fuel), LstOf(cmds)).String())
@@ -802,6 +807,19 @@ func c19CheckDoc(doc []byte, cmds []SX, m *c19Model, in c19Input, r *Result) {
 	}
 	tree := canonTree(raw, true)
 	r.Validated++
+	if c19UseFixed() {
+		if tree.canon() != m.TreeFixed.canon() {
+			viol("correspondence", "svg-tree-differs-from-fixed-model", "the element tree written by the implementation differs from the fixed model's render tree",
+				map[string]any{"impl_tree": tree.canon(), "model_tree": m.TreeFixed.canon()})
+		}
+		if canonList(m.FlatFixed) != canonList(m.Spec) {
+			viol("correspondence", "model-theorem-fixed", "extracted model contradicts C19_svg_shows_what_was_drawn_fixed", nil)
+		}
+		for key, detail := range diffShapes(flattenTree(tree), m.Spec, true) {
+			viol("property", key, "the flattened SVG does not show what was drawn: "+detail, nil)
+		}
+		return
+	}
 	if tree.canon() != m.Tree.canon() {
 		viol("correspondence", "svg-tree-differs-from-model", "the element tree written by the implementation differs from the model's render tree",
 			map[string]any{"impl_tree": tree.canon(), "model_tree": m.Tree.canon()})
@@ -1055,12 +1073,12 @@ func c19Rejected(model *Model, r *Result) {
 
 var c19Corpus = []string{
 	// the _refuted witnesses of coq/Props/C19.v
-	`((ellipse 4632233691727265792 4626322717216342016 4621819117588971520 4621819117588971520 0))`,                  // ellipse 50 20 10
-	`((color "red") (clear "blue") (width 4611686018427387904) (circle 4607182418800017408))`,                          // lone clear
-	`((width 4591870180066957722) (clear "blue"))`,                                                                     // width 0.1 (= default value, other pointer), lone clear
-	`((color "red") (gridn 4632233691727265792 "green") (color "blue"))`,                                               // lone grid
-	`((stroke "blue") (fill "red") (text "x"))`,                                                                        // text paint
-	`((font ((baseline "top") (size 4618441417868443648))) (text "x"))`,                                                // baseline
+	`((ellipse 4632233691727265792 4626322717216342016 4621819117588971520 4621819117588971520 0))`, // ellipse 50 20 10
+	`((color "red") (clear "blue") (width 4611686018427387904) (circle 4607182418800017408))`,       // lone clear
+	`((width 4591870180066957722) (clear "blue"))`,                                                  // width 0.1 (= default value, other pointer), lone clear
+	`((color "red") (gridn 4632233691727265792 "green") (color "blue"))`,                            // lone grid
+	`((stroke "blue") (fill "red") (text "x"))`,                                                     // text paint
+	`((font ((baseline "top") (size 4618441417868443648))) (text "x"))`,                             // baseline
 	`((text "x"))`, // default family
 	`((color "<b>&") (text "<b>&</b>") (text "") (linecap "\"'") (line 4607182418800017408 4607182418800017408))`,
 }
@@ -1105,7 +1123,7 @@ func runC19(cfg Config, r *Result) {
 		c19CaseSX(x.L, c19Input{Case: c, Mode: "api"}, model, r)
 	}
 	maxLen := cfg.N(15, 60)
-	nAPI := cfg.N(1500, 30000)
+	nAPI := cfg.N(800, 30000)
 	for i := 0; i < nAPI; i++ {
 		n := 1 + cfg.Rng.Intn(maxLen)
 		if i%10 == 0 {
@@ -1117,12 +1135,15 @@ func runC19(cfg Config, r *Result) {
 		r.Violate(Violation{Kind: "correspondence", Key: "evy-binary", Detail: err.Error()})
 		return
 	}
-	nBin := cfg.N(60, 1200)
+	nBin := cfg.N(40, 1200)
 	for i := 0; i < nBin; i++ {
 		c19Case(genHistory(cfg.Rng, 1+cfg.Rng.Intn(maxLen), false, false), "binary", model, r)
 	}
 	c19Rejected(model, r)
 	nHang := cfg.N(3, 12)
+	if c19UseFixed() {
+		nHang = 0 // with the gridn fix the call is rejected; covered by the rejected-call cases
+	}
 	for i := 0; i < nHang; i++ {
 		c19Case(genHistory(cfg.Rng, 1+cfg.Rng.Intn(5), false, true), "hang", model, r)
 	}
